@@ -51,6 +51,15 @@ def _ball(ctx, c, e):
     law = Sphere(mu)
     exact = np.array(e["num"], dtype=float) / e["den"]
     rad = e["radnum"] / e["radden"]
+    # the lattice point typed as integers (np.array([-8, 3])) is the same point
+    try:
+        yi = np.asarray(law.prox(np.array(c["x"][0], dtype=int), c["z"]), dtype=float)
+        if yi.shape != exact.shape or not np.all(np.isfinite(yi)) or np.max(np.abs(yi - exact)) > 4e-16 * max(np.max(np.abs(exact)), rad, 0.0) + 1e-300:
+            ctx.violation("ball:prox:integer-typed", f"Sphere({mu}).prox of x={c['x'][0]} typed as integers, z={c['z']} = {yi.tolist()}, exact projection {exact.tolist()}", {"case": c})
+            return
+    except Exception as ex:
+        ctx.violation("ball:raises:integer-typed", f"Sphere({mu}).prox raised {type(ex).__name__}: {ex} for x={c['x'][0]} typed as integers", {"case": c})
+        return
     for k in SCALES:
         s = 2.0 ** k
         try:
